@@ -194,7 +194,7 @@ class DataPacketReceiver(Elaboratable):
                 crc16_failed = (crc16.crc     != header.crc16)
 
                 # If either of our CRCs fail, this isn't going to be followed by a DPP we care about.
-                with m.If(crc5_failed | crc16_failed):
+                with m.If((crc5_failed | crc16_failed) & sink.valid):
                     m.next = "WAIT_FOR_HPSTART"
 
                 # Otherwise, if we have a data packet header, move to capturing our data.
@@ -245,14 +245,6 @@ class DataPacketReceiver(Elaboratable):
                     # Once we've moved on, this is no longer our first word.
                     m.d.ss += source.first.eq(0)
 
-                    # If we see unexpected control codes in our data packet, bail out.
-                    # Note that we'll only check for validity in positions we consider to have
-                    # valid data; as we always expect our data packet payload to be followed by
-                    # and "end of packet" set of control codes.
-                    with m.If((sink.ctrl & source.valid) != 0):
-                        m.d.comb += self.packet_bad.eq(1)
-                        m.next = "WAIT_FOR_HPSTART"
-
                     # Capture the current word and valid value, so we can refer to them in
                     # future states. This is necessary for CRC validation when we have a data payload
                     # that's not evenly divisible into words; see the instantiation of ``previous_word``.
@@ -269,6 +261,15 @@ class DataPacketReceiver(Elaboratable):
                     with m.Else():
                         m.next = "CHECK_CRC32"
 
+                    # If we see unexpected control codes in our data packet, bail out. (This comes last, so it
+                    # overrides the transitions above: the packet is reported bad here and not checked again.)
+                    # Note that we'll only check for validity in positions we consider to have
+                    # valid data; as we always expect our data packet payload to be followed by
+                    # and "end of packet" set of control codes.
+                    with m.If((sink.ctrl & source.valid) != 0):
+                        m.d.comb += self.packet_bad.eq(1)
+                        m.next = "WAIT_FOR_HPSTART"
+
 
             # CHECK_CRC32 -- we've received the end of our packet; and we're ready to decide if the
             # packet is good or not. We'll check its CRC, and strobe either packet_good or packet_bad.
@@ -279,6 +280,10 @@ class DataPacketReceiver(Elaboratable):
                 # contained in the previous word. For example, if we have a 3-byte or 7-byte data packet,
                 # one word of the CRC will be contained in the previous data word, and three in our current one.
                 with m.Switch(previous_valid):
+
+                    # If our data packet was empty, the word we consumed in RECEIVE_PAYLOAD was its CRC.
+                    with m.Case(0b0000):
+                        m.d.comb += data_to_check.eq(previous_word)
 
                     # If our data packet was word aligned, all of our CRC bytes are currently present.
                     # We'll use our current word directly.
@@ -300,12 +305,13 @@ class DataPacketReceiver(Elaboratable):
 
                 # Check our CRC based on the word we've extracted, and strobe either ``packet_good``
                 # or ``packet_bad``, depending on its validity.
-                with m.If(data_to_check == crc32.crc):
-                    m.d.comb += self.packet_good.eq(1)
-                with m.Else():
-                    m.d.comb += self.packet_bad.eq(1)
+                with m.If(sink.valid):
+                    with m.If(data_to_check == crc32.crc):
+                        m.d.comb += self.packet_good.eq(1)
+                    with m.Else():
+                        m.d.comb += self.packet_bad.eq(1)
 
-                # Finally, wait for our next packet.
+                    # Finally, wait for our next packet.
                     m.next = "WAIT_FOR_HPSTART"
 
 
